@@ -141,6 +141,9 @@ def parse_time_expression(tick_rate: typing.Optional[int], frame_rate: typing.Op
   m = _CLOCK_TIME_FRACTION_RE.match(time_expr)
 
   if m:
+    if int(m.group(2)) > 59 or Fraction(m.group(3)) > 60:
+      raise ValueError("Minutes or seconds out of range")
+
     return Fraction(m.group(1)) * 3600 + \
             Fraction(m.group(2)) * 60 + \
             Fraction(m.group(3))
@@ -152,6 +155,9 @@ def parse_time_expression(tick_rate: typing.Optional[int], frame_rate: typing.Op
 
     if frames >= frame_rate:
       raise ValueError("Frame cound exceeds frame rate")
+
+    if int(m.group(2)) > 59 or int(m.group(3)) > 60:
+      raise ValueError("Minutes or seconds out of range")
 
     return Fraction(m.group(1)) * 3600 + \
             Fraction(m.group(2)) * 60 + \
